@@ -697,6 +697,26 @@ INTEGER_decode_uper(const asn_codec_ctx_t *opt_codec_ctx,
 	} while(repeat);
 	st->buf[st->size] = 0;	/* JIC */
 
+	/*
+	 * Drop the superfluous leading octets (such as the zero octet
+	 * prefixed to a semi-constrained value): INTEGER_compare() and
+	 * others assume the minimal two's complement form.
+	 */
+	{
+		uint8_t *b = st->buf;
+		uint8_t *e = st->buf + st->size;
+		for(; b + 1 < e; b++) {
+			if(b[0] == 0x00 && (b[1] & 0x80) == 0) continue;
+			if(b[0] == 0xff && (b[1] & 0x80) != 0) continue;
+			break;
+		}
+		if(b != st->buf) {
+			st->size = e - b;
+			memmove(st->buf, b, st->size);
+			st->buf[st->size] = 0;
+		}
+	}
+
 	/* #12.2.3 */
 	if(ct && ct->lower_bound) {
 		/*
